@@ -103,12 +103,16 @@ def gjk_nesterov_accelerated(
     # normalize_support_direction is for soem reason only needed when both colliders are an mesh.
     normalize_support_direction = type(collider0) == MeshGraph and type(collider1) == MeshGraph
 
-    # Infaltion is only used with spheres and capsules
+    # Infaltion is only used with spheres and capsules and only if the
+    # specialized support functions (which ignore the radius) are used for
+    # both colliders. The generic fallback already includes the radius.
+    specialized = (select_support(np.array([1.0, 0.0, 0.0]), collider0)[1]
+                   and select_support(np.array([1.0, 0.0, 0.0]), collider1)[1])
     inflation = 0.0
-    if type(collider0) == Sphere or type(collider0) == Capsule:
+    if specialized and (type(collider0) == Sphere or type(collider0) == Capsule):
         inflation += collider0.radius
 
-    if type(collider1) == Sphere or type(collider1) == Capsule:
+    if specialized and (type(collider1) == Sphere or type(collider1) == Capsule):
         inflation += collider1.radius
 
     upper_bound += inflation
